@@ -559,6 +559,30 @@ func checkC20(c *Check) {
 				}
 			}
 			c.Obl(okDone, "C20.R5", "loop-stops-on-cancel", P.Pos(body.Pos()), "the watcher loop returns when its context is done", "the watcher loop has no ctx.Done() arm that returns: a cancelled watcher keeps polling")
+			// the polling period is the configured refresh interval, for the whole life of the watcher: the ticker is built
+			// from the watcher's interval and never re-armed with another period (a back-off that is not undone polls a
+			// rotated CA far later than configured)
+			okPeriod, nTick := true, 0
+			whyPeriod := ""
+			for _, bf := range deepFuncs(body, 2) {
+				if !isOwnPath(pkgPathOf(bf)) {
+					continue
+				}
+				for _, ci := range allCalls(bf) {
+					switch {
+					case isCallTo(ci, "time.NewTicker") || isCallTo(ci, "time.Tick"):
+						nTick++
+						for _, l := range Leaves(ci.Common().Args[0], leafOpts{noConcat: true}) {
+							if fieldNameOfLoad(resolveCell(stripConv(l))) != "interval" {
+								okPeriod, whyPeriod = false, "the ticker period is "+descDepth(l, 3)+", not the watcher's interval"
+							}
+						}
+					case isCallTo(ci, "time.Ticker.Reset"):
+						okPeriod, whyPeriod = false, "the ticker is re-armed with another period at "+posOf(P, ci)
+					}
+				}
+			}
+			c.Obl(okPeriod && nTick >= 1, "C20.R5", "poll-period-is-the-interval", P.Pos(body.Pos()), "the watcher polls at its configured interval", "the watcher does not poll at the configured refresh interval: "+whyPeriod)
 			// callback only under content differs
 			okDiff := false
 			for _, bf := range deepFuncs(body, 2) {
